@@ -28,6 +28,10 @@ pub enum Action {
     /// advance the (paused) clock by this many milliseconds: a slow but
     /// progressing client
     Tick(u64),
+    /// the next accept() fails with this errno (EMFILE, ENFILE, ECONNABORTED).
+    /// Only meaningful when the server runs its own accept loop; hyper's own
+    /// listener handles these inside the part that is stubbed.
+    AcceptError(i32),
 }
 
 #[derive(Clone, Debug, PartialEq)]
@@ -52,6 +56,7 @@ impl Action {
             Action::Hold => json!(["hold"]),
             Action::Release => json!(["release"]),
             Action::Tick(ms) => json!(["tick", ms]),
+            Action::AcceptError(e) => json!(["accept-error", e]),
         }
     }
     pub fn from_json(v: &Value) -> Option<Action> {
@@ -70,13 +75,14 @@ impl Action {
             "hold" => Action::Hold,
             "release" => Action::Release,
             "tick" => Action::Tick(c as u64),
+            "accept-error" => Action::AcceptError(c as i32),
             _ => return None,
         })
     }
     pub fn conn(&self) -> Option<usize> {
         match self {
             Action::Open(c) | Action::Deliver(c, _) | Action::Drain(c, _) | Action::DrainAll(c) | Action::HalfClose(c) | Action::Close(c) | Action::Reset(c) => Some(*c),
-            Action::Probe | Action::Hold | Action::Release | Action::Tick(_) => None,
+            Action::Probe | Action::Hold | Action::Release | Action::Tick(_) | Action::AcceptError(_) => None,
         }
     }
     pub fn is_fault(&self) -> bool {
@@ -615,6 +621,13 @@ impl<'a> RunGen<'a> {
                 }
             }
         }
+        // accept() failures (descriptor exhaustion, aborted handshakes)
+        if rng.chance(1, 6) {
+            for _ in 0..rng.urange(1, 3) {
+                let at = rng.usize_below(actions.len() + 1);
+                actions.insert(at, Action::AcceptError(*rng.pick(&[24, 23, 103])));
+            }
+        }
         // slow clients: in some runs time passes between deliveries (at most a few
         // seconds in total, far below any sane server-side timeout)
         if rng.chance(1, 5) {
@@ -636,9 +649,9 @@ impl<'a> RunGen<'a> {
             let mut out = vec![];
             let mut i = 0;
             while i < actions.len() {
-                if rng.chance(1, 6) && !matches!(actions[i], Action::Probe | Action::Tick(_)) {
+                if rng.chance(1, 6) && !matches!(actions[i], Action::Probe | Action::Tick(_) | Action::AcceptError(_)) {
                     let k = rng.urange(2, 5).min(actions.len() - i);
-                    if actions[i..i + k].iter().all(|a| !matches!(a, Action::Probe | Action::Tick(_))) {
+                    if actions[i..i + k].iter().all(|a| !matches!(a, Action::Probe | Action::Tick(_) | Action::AcceptError(_))) {
                         out.push(Action::Hold);
                         out.extend(actions[i..i + k].iter().cloned());
                         out.push(Action::Release);
